@@ -22,9 +22,17 @@ from .. import tlc
 from ..core import Ctx, pmap
 from ..tlc import MachineryError
 
+import os
+
 LEVEL = "model_checking"
 AREA = "hosttrust"
 JUDGE = "HostTrustTrace"
+# development knob: scales the seeded-random volumes of the thorough tier (1 = as designed)
+SCALE = float(os.environ.get("VERIF_C20_SCALE", "1"))
+
+
+def _n(quick_n: int, thorough_n: int, quick: bool) -> int:
+    return quick_n if quick else max(quick_n, int(thorough_n * SCALE))
 
 
 # --------------------------------------------------------------------------- host cases
@@ -39,13 +47,13 @@ def host_cases(ctx: Ctx, pairs):
         apis = ["host_is_trusted", ht.APIS[1 + n % 3]] if ctx.quick else list(ht.APIS)
         cases.append([_txt(p["host"]), [_txt(e) for e in p["list"]], apis, "http", "srv.example", "8080"])
     n_model = len(cases)
-    g = ht.grammar_cases(rng, 1000 if ctx.quick else 40000)
+    g = ht.grammar_cases(rng, _n(1000, 30000, ctx.quick))
     if ctx.quick:   # two of the four entry points per pair, rotating
         for n, c in enumerate(g):
             if len(c[2]) == 4:
                 c[2] = ["host_is_trusted", ht.APIS[1 + n % 3]]
     cases += g
-    cases += ht.codepoint_cases(rng, 150 if ctx.quick else 6000, 0x100 if ctx.quick else 0x500)
+    cases += ht.codepoint_cases(rng, _n(150, 5000, ctx.quick), 0x100 if ctx.quick else 0x500)
     return cases, n_model
 
 
@@ -130,7 +138,7 @@ def scripts_code_to_spec(ctx: Ctx, rng):
     for evalex, pin_on in cfgs:
         steps = [[g, h, i] for i, (h, g) in enumerate(itertools.product(ht.DEBUG_HOSTS, gate))]
         scripts.append({"evalex": evalex, "pin_on": pin_on, "steps": steps, "src": "hosts"})
-    hosts_full = ht.DEBUG_HOSTS if not q else ["localhost.evil.com", rng.choice(ht.DEBUG_HOSTS)]
+    hosts_full = ["localhost.evil.com", rng.choice(ht.DEBUG_HOSTS)] if q else ht.DEBUG_HOSTS[:: (1 if SCALE >= 1 else 4)]
     for evalex, pin_on in cfgs:
         for h in hosts_full:
             # requests that do not move the counter first, the others afterwards (the judge follows either way)
@@ -139,7 +147,7 @@ def scripts_code_to_spec(ctx: Ctx, rng):
     # (b) seeded random histories over the whole product
     weights = {"eval": 4, "console": 1, "pinauth": 5, "printpin": 1, "resource": 1, "none": 1}
     wreqs = [r for r in reqs for _ in range(weights[r["cmd"]])]
-    for _ in range(120 if q else 4000):
+    for _ in range(_n(120, 3000, q)):
         evalex, pin_on = rng.choice(cfgs) if rng.random() < 0.4 else (True, True)
         steps = []
         for _ in range(rng.randint(8, 40)):
@@ -151,16 +159,16 @@ def scripts_code_to_spec(ctx: Ctx, rng):
         scripts.append({"evalex": evalex, "pin_on": pin_on, "steps": steps, "src": "random"})
     # (c) PIN-attempt sequences over {right, wrong, stale-cookie}
     names = ("right", "wrong", "stale")
-    L = 5 if q else 8
+    L = 5 if q else (8 if SCALE >= 1 else 6)
     for seq in itertools.product(names, repeat=L):
         scripts.append({"evalex": True, "pin_on": True, "src": "pinseq",
                         "steps": [[ht.ATTEMPT[a], ht.TRUSTED_REP, i] for i, a in enumerate(seq)]})
     for k in ((8, 10, 11) if q else range(4, 12)):
-        for seq in itertools.product(names, repeat=14 - max(k, 10) if q else min(14 - k, 6)):
+        for seq in itertools.product(names, repeat=14 - max(k, 10) if q else min(14 - k, 6 if SCALE >= 1 else 4)):
             full = ("wrong",) * k + seq + ("right",)
             scripts.append({"evalex": True, "pin_on": True, "src": "pinseq",
                             "steps": [[ht.ATTEMPT[a], ht.TRUSTED_REP, i] for i, a in enumerate(full)]})
-    for _ in range(100 if q else 5000):
+    for _ in range(_n(100, 4000, q)):
         p_wrong = rng.choice([0.5, 0.7, 0.9])
         seq = [("wrong" if rng.random() < p_wrong else rng.choice(names)) for _ in range(14)]
         steps = [[ht.ATTEMPT[a], ht.TRUSTED_REP, rng.randrange(60)] for a in seq]
@@ -281,8 +289,9 @@ def run(ctx: Ctx):
     from collections import Counter
     ctx.notes["violation_keys"] = dict(Counter(v["key"] for v in ctx.violations))
     # a run in which the guarded things never happen proves nothing
+    # (only when nothing was rejected: a defect that makes an outcome unreachable must surface as its VIOLATION, not as exit 2)
     for k, v in {**seen_h, **seen_d}.items():
-        if v == 0:
+        if v == 0 and not ctx.violations and not ctx.known_hits:
             raise MachineryError(f"vacuous run: outcome {k!r} was never observed")
     if len(pairs) < 1000 or len(lts) < 5000:
         raise MachineryError(f"export too small: {len(pairs)} pairs, {len(lts)} transitions")
